@@ -52,10 +52,10 @@ CLAIMED = {
             "the reassembled payload. Message-level clauses (fragmentation independence, validation off, close reasons) are also tied by the "
             "correspondence/oracle runs over every string of length <= 2, boundary products, all prefixes of well-formed sequences.",
             "Not modelled: wsaccel fast path (absent).", "DESIGN.md §6 C06"),
-    "C07": ("Lean 4 theorems C07_trace (writes = exactly the pongs of the pings, in order) and C07_pong_bytes" + T_CORR,
+    "C07": ("Lean 4 theorems C07_trace (writes = exactly the pongs of the pings, in order), C07_prompt (at pong time nothing beyond the ping has been taken from the transport) and C07_pong_bytes" + T_CORR,
             "Proof: `C07_trace` — along any message with pings/pongs at any position, over any chunking, the bytes the receive call writes are "
             "exactly one pong per ping, in ping order, nothing for pongs/data; `C07_pong_bytes` — each pong decodes to FIN=1/op 10/masked/same "
-            "payload. 'Before it reads any further' is additionally checked on the real read/write timeline of the simulated socket for every "
+            "payload; `C07_prompt` — when the pong is written the client's buffer is empty and the transport still holds exactly the bytes after the ping (`recv_frame` never over-reads: WS.Lemmas.Exact). 'Before it reads any further' is additionally checked on the real read/write timeline of the simulated socket for every "
             "ping length 0..125, bursts, pings inside fragmented messages, byte-wise delivery.", "", "DESIGN.md §6 C07"),
     "C08": ("Lean 4 theorems C08_own_close_once (all call/event histories), C08_status_range_*, C08_inert_* (zero transport calls once released), C08_close_releases" + T_CORR,
             "Proof: `C08_own_close_once` — over every sequence of client calls and every server script, the close frames written by close() or "
